@@ -48,6 +48,16 @@ func (v *FnV) specType(name string, pkg *packages.Package) (types.Type, error) {
 		return tByte, nil
 	case "float64":
 		return tFloat64, nil
+	case "uint32":
+		return types.Typ[types.Uint32], nil
+	case "uint64":
+		return types.Typ[types.Uint64], nil
+	case "int64":
+		return types.Typ[types.Int64], nil
+	case "uint":
+		return types.Typ[types.Uint], nil
+	case "uintptr":
+		return types.Typ[types.Uintptr], nil
 	case "mathint":
 		return nil, nil
 	case "any":
